@@ -214,7 +214,8 @@ class Interp:
     def finish(self):
         interesting = {"to_yaml", "run", "get_run_func", "get_jacobian_func"} | ({"get_edges", "collect_edges"} if self.hier else set())
         self.res.nontrivial = self.n_ops >= 2 and bool(interesting & set(self.kinds))
-        self.res.labels = sorted({"op:" + k for k in self.kinds}) + (["hierarchical"] if self.hier else ["flat"])
+        self.res.labels = sorted({"op:" + k for k in self.kinds}) + (["hierarchical"] if self.hier else ["flat"]) + \
+            (["edge_template"] if any(e.get("et") for e in self.spec["edges"]) else [])
         return self.res
 
 
@@ -246,9 +247,11 @@ def op_strategy(it):
 
 
 def init_strategy():
-    return gen.model_spec({"leak": True, "max_types": 2, "max_ops": 2, "max_nodes": 4, "min_nodes": 2, "max_edges": 4,
+    base = gen.model_spec({"leak": True, "max_types": 2, "max_ops": 2, "max_nodes": 4, "min_nodes": 2, "max_edges": 4,
                            "min_edges": 1, "expr_depth": 2, "depths": [0, 0, 1, 1, 2], "collision": False, "max_alg": 1,
-                           "funcs": ["tanh", "sigmoid", "exp"], "pow": False}).map(lambda s: {"spec": s})
+                           "funcs": ["tanh", "sigmoid", "exp"], "pow": False})
+    # one third of the circuits route edges through (shared) EdgeTemplates with per-edge operator values
+    return st.one_of(base, base, base.flatmap(lambda s: gen.with_edge_templates(s, same_keys=True))).map(lambda s: {"spec": s})
 
 
 class HistoryArm(Arm):
